@@ -109,6 +109,8 @@ enum CP {
 struct Pool {
 	e: Vec<Option<CP>>,
 	bsms: Vec<(u16, Vec<u16>)>,
+	/// major version of the class file (the content of switch padding is unconstrained from 51 on)
+	major: u16,
 }
 
 impl Pool {
@@ -382,7 +384,7 @@ fn read_pool(r: &mut R) -> DResult<Pool> {
 	if e.len() != count {
 		return Err(format!("constant_pool_count {count} does not match the entries ({}): a long/double needs two slots", e.len()));
 	}
-	Ok(Pool { e, bsms: Vec::new() })
+	Ok(Pool { e, bsms: Vec::new(), major: 0 })
 }
 
 #[derive(Clone, Copy, PartialEq, Eq, Debug)]
@@ -879,8 +881,8 @@ fn parse_code(r: &mut R, pool: &Pool) -> DResult<Code> {
 				201 => Raw::Branch(168, c.i32()? as i64),
 				170 | 171 => {
 					while c.pos % 4 != 0 {
-						if c.u8()? != 0 {
-							return Err("switch padding is not zero".into());
+						if c.u8()? != 0 && pool.major < 51 {
+							return Err("switch padding is not zero (class file version below 51)".into());
 						}
 					}
 					let default = c.i32()? as i64;
@@ -1058,6 +1060,7 @@ pub fn decode_prefix(bytes: &[u8]) -> DResult<Decoded> {
 	let minor = r.u16()?;
 	let major = r.u16()?;
 	let mut pool = read_pool(&mut r)?;
+	pool.major = major;
 	pool.validate()?;
 	let access = r.u16()?;
 	let name = pool.class(r.u16()?)?;
